@@ -237,7 +237,7 @@ func (in *Interp) runJob(job Job) (res *JobResult) {
 	}
 	kind := job.Solver
 	if kind == "" {
-		kind = "z3"
+		kind = "z3-new"
 	}
 	if in.solver == nil || in.solver.kind != kind || in.solver.timeout != job.TimeoutMs {
 		if in.solver != nil {
@@ -346,7 +346,7 @@ func main() {
 		maxPaths := fs.Int("paths", 20000, "path cap")
 		unwind := fs.Int("unwind", 0, "loop bound")
 		preempt := fs.Int("preempt", 2, "preemption bound")
-		solver := fs.String("solver", "z3", "solver")
+		solver := fs.String("solver", "z3-new", "solver")
 		fs.Parse(os.Args[2:])
 		in, err := loadProgram(*repo)
 		if err != nil {
@@ -377,7 +377,27 @@ func main() {
 			fmt.Sscan(a, &v)
 			job.Args = append(job.Args, v)
 		}
+		if os.Getenv("GOSYM_DECSTATS") != "" {
+			decStats = map[string]int{}
+		}
 		res := in.runJob(job)
+		if decStats != nil {
+			type kv struct {
+				k string
+				n int
+			}
+			var l []kv
+			for k, n := range decStats {
+				l = append(l, kv{k, n})
+			}
+			sort.Slice(l, func(i, j int) bool { return l[i].n > l[j].n })
+			for i, e := range l {
+				if i > 40 {
+					break
+				}
+				fmt.Fprintf(os.Stderr, "%6d %s\n", e.n, e.k)
+			}
+		}
 		res.Funcs = nil
 		b, _ := json.MarshalIndent(res, "", " ")
 		fmt.Println(string(b))
